@@ -343,7 +343,7 @@ def ob_infer(kinds, label):
     return run
 
 
-def obligations(tier, seed):
+def _obligations(tier, seed):
     obs = []
 
     def add(defuzz, explicit, kinds, skel, agg, batch=0, zero_at=None):
@@ -407,3 +407,8 @@ def obligations(tier, seed):
             for agg in AGGS:
                 add(d, "Automatic", ("Ramp", "Ramp"), (0, 1, 1), agg)
     return obs
+
+
+def obligations(tier, seed):
+    from . import conform
+    return _obligations(tier, seed) + conform.obligations(PROPERTY, tier)
